@@ -36,6 +36,7 @@ ASSUMPTIONS = [
     "Each case may be preceded (in the same process) by 0-3 unrelated typed queries whose lambda parameters carry the names "
     "that the untyped lambda uses as free variables: process-level history must not matter.",
 ]
+ATHERIS_RUNS = 6000  # thorough tier only: coverage-guided supplement (vf/fuzz.py)
 BUDGET = {"quick": (6, 1200), "thorough": (16, 10000)}
 EXHAUSTIVE_SHARDS = {"quick": 4, "thorough": 16}
 EXHAUSTIVE_NOTE = "reduced pool (3 attrs, 4 constants, 33 forms): every expression of depth <=1 (quick) or <=2 (thorough), x Select/SelectMany/Where, string form"
